@@ -22,6 +22,14 @@ func init() {
 // request reached through f.Peer directly or through a local `msg := f.Peer`). waitOnTrue tells which edge waits.
 func (c *Ctx) completionCond(v ssa.Value, f ssa.Value) (waitOnTrue bool, ok bool) {
 	p := c.P
+	if un, isU := v.(*ssa.UnOp); isU && un.Op == token.NOT {
+		w, ok := c.completionCond(un.X, f)
+		return !w, ok
+	}
+	if call, isC := v.(*ssa.Call); isC {
+		// the test in a predicate helper: `if fragsPending(f, sfd, "mget") { return codec.Continue }`
+		return c.completionHelper(call, f)
+	}
 	bo, isB := v.(*ssa.BinOp)
 	if !isB {
 		return false, false
@@ -61,6 +69,72 @@ func (c *Ctx) completionCond(v ssa.Value, f ssa.Value) (waitOnTrue bool, ok bool
 		return true, true // count < len: waiting
 	case token.GEQ:
 		return false, true // count >= len: complete on the true edge
+	}
+	return false, false
+}
+
+// completionHelper: call is a call of a boolean helper whose answer is decided by the completion test on the parameter
+// that receives f: every return on one edge of that test gives one constant, every return on the other edge the other.
+func (c *Ctx) completionHelper(call *ssa.Call, f ssa.Value) (waitOnTrue bool, ok bool) {
+	h := call.Call.StaticCallee()
+	if h == nil || !c.P.isHelper(h) || h.Signature.Results().Len() != 1 || len(h.Blocks) == 0 {
+		return false, false
+	}
+	var prm *ssa.Parameter
+	for i, a := range call.Call.Args {
+		if strip(a) == f && i < len(h.Params) {
+			prm = h.Params[i]
+		}
+	}
+	if prm == nil {
+		return false, false
+	}
+	for _, b := range h.Blocks {
+		ifi, isIf := b.Instrs[len(b.Instrs)-1].(*ssa.If)
+		if !isIf {
+			continue
+		}
+		if _, isCall := ifi.Cond.(*ssa.Call); isCall {
+			continue
+		}
+		var innerWait, is bool
+		withBinding(h, call.Call.Args, func() { innerWait, is = c.completionCond(ifi.Cond, strip(prm)) })
+		if !is {
+			continue
+		}
+		var onTrue, onFalse []bool
+		okAll := true
+		for _, r := range returnsReachable(h) {
+			cst, isC := results(r.(*ssa.Return))[0].(*ssa.Const)
+			if !isC || cst.Value == nil {
+				okAll = false
+				break
+			}
+			switch {
+			case b.Succs[0].Dominates(r.Block()) && b.Succs[0] != b.Succs[1] && len(b.Succs[0].Preds) == 1:
+				onTrue = append(onTrue, constBoolValue(cst))
+			case b.Succs[1].Dominates(r.Block()) && len(b.Succs[1].Preds) == 1:
+				onFalse = append(onFalse, constBoolValue(cst))
+			default:
+				okAll = false
+			}
+		}
+		same := func(xs []bool) bool {
+			for _, x := range xs {
+				if x != xs[0] {
+					return false
+				}
+			}
+			return len(xs) > 0
+		}
+		if !okAll || !same(onTrue) || !same(onFalse) || onTrue[0] == onFalse[0] {
+			return false, false
+		}
+		c.touch(h)
+		if innerWait {
+			return onTrue[0], true
+		}
+		return onFalse[0], true
 	}
 	return false, false
 }
@@ -185,7 +259,7 @@ func ruleC07_2(c *Ctx) {
 		c.check(okCont, tag+": waits while fragments are outstanding", c.at(guardIf), "returns codec.Continue on FragDoneNumber < len(Body)", "the edge on which fragments are still outstanding does not return codec.Continue: eventloop.sread would flush an incomplete request")
 		isGuard := func(g Guard) bool { return g.If == guardIf && g.Truth == !waitOnTrue }
 		n := 0
-		allInstrs(fn, func(in ssa.Instruction) {
+		p.allInstrsDeep(fn, func(in ssa.Instruction) {
 			st, ok := in.(*ssa.Store)
 			if !ok {
 				return
@@ -291,10 +365,38 @@ func ruleC07_3(c *Ctx) {
 	if fn := fns["MSet"]; fn != nil {
 		// OK only on the edge where the loop over all fragments saw no failure
 		em := c.emissions(fn, rsp)
+		// what a path stores into the reply: each emitted value is resolved along the path (`reply := OK; if failed
+		// { reply = ErrUnKnown }; RspBody = append(RspBody[:0], reply...)` stores either, depending on the way taken)
+		isOKText := func(t string) bool { return strings.Contains(t, "\"+OK\\r\\n\"") }
+		classify := func(pa []*ssa.BasicBlock) (sawOK, sawErr bool) {
+			for i, b := range pa {
+				for _, t := range em[b] {
+					switch {
+					case t.kind == "lit" && t.text == "+OK\r\n":
+						sawOK = true
+					case t.kind == "val":
+						text := t.text
+						if t.v != nil {
+							text = expr(valueOnPath(t.v, pa[:i+1]))
+							if ph, isPhi := t.v.(*ssa.Phi); isPhi && ph.Block() == b && i == 0 {
+								text = t.text
+							}
+						}
+						if isOKText(text) {
+							sawOK = true
+						}
+						if strings.Contains(text, "-ERR") {
+							sawErr = true
+						}
+					}
+				}
+			}
+			return
+		}
 		var okBlock, errBlock *ssa.BasicBlock
 		for b, ts := range em {
 			for _, t := range ts {
-				if t.kind == "val" && strings.Contains(t.text, "\"+OK\\r\\n\"") {
+				if t.kind == "val" && isOKText(t.text) {
 					okBlock = b
 				}
 				if t.kind == "val" && strings.Contains(t.text, "-ERR") {
@@ -323,16 +425,24 @@ func ruleC07_3(c *Ctx) {
 					}
 				}
 			}
+			isRet := func(x *ssa.BasicBlock) bool { _, r := x.Instrs[len(x.Instrs)-1].(*ssa.Return); return r }
 			okAll, okErr := false, false
 			if loop != nil && !loop.Blocks[okBlock] && loop.Header.Dominates(okBlock) {
-				// (a) +OK is reached from the loop only through its exhaustion edge: every feasible path from the
-				//     header to the +OK store leaves the loop at the header (flags such as allOk are followed)
-				paths, complete := feasiblePaths(loop.Header, func(b *ssa.BasicBlock) bool { return b == okBlock }, 400)
-				okAll = complete && len(paths) > 0
+				// (a) +OK is stored only on ways that leave the loop through its exhaustion edge: every feasible path from
+				//     the header that stores +OK leaves the loop at the header (flags such as allOk / failed are followed)
+				paths, complete := feasiblePaths(loop.Header, isRet, 400)
+				nOK := 0
+				okAll = complete
 				for _, pa := range paths {
-					if len(pa) > 1 && loop.Blocks[pa[1]] {
-						okAll = false
+					if sawOK, _ := classify(pa); sawOK {
+						nOK++
+						if len(pa) > 1 && loop.Blocks[pa[1]] {
+							okAll = false
+						}
 					}
+				}
+				if nOK == 0 {
+					okAll = false
 				}
 			}
 			c.check(okAll, "SRespCodec.MSet: OK only if every fragment is Ok", firstPos(c, em[okBlock]), "the +OK store is reached only after the loop over all of Msg.Body ran to exhaustion",
@@ -348,19 +458,10 @@ func ruleC07_3(c *Ctx) {
 						continue
 					}
 					bad := b.Succs[1]
-					isRet := func(x *ssa.BasicBlock) bool { _, r := x.Instrs[len(x.Instrs)-1].(*ssa.Return); return r }
 					paths, complete := feasiblePathsVia(b, bad, isRet, 400)
 					okErr = complete && len(paths) > 0
 					for _, pa := range paths {
-						sawErr, sawOK := false, false
-						for _, x := range pa {
-							if x == errBlock {
-								sawErr = true
-							}
-							if x == okBlock {
-								sawOK = true
-							}
-						}
+						sawOK, sawErr := classify(pa)
 						if !sawErr || sawOK {
 							okErr = false
 						}
